@@ -100,7 +100,8 @@ def literal_pool(rnd, tier):
             if w % 8 == 0:
                 lits += ["0x<%d>%x" % (w, v)]
         lits += ["0b" + bin(top - 1)[2:], "0x%x" % (top - 1), "0x%X" % (top >> 1), str(top - 1), "0u%d" % (top - 1), "0d%d" % top]
-    lits += ["0", "00", "007", "0u0", "0d007", "0u5.0", "0d5.000", "0u100", "0d100", "0u1000", "0u5.00", "0u.0", "0u5.", "0u5x0",
+    lits += ["010", "0010", "0d0100", "0u010", "09", "0d08", "0u0019", "0100", "0d010.0", "0u<8>010", "0u<16>0100",
+             "0", "00", "007", "0u0", "0d007", "0u5.0", "0d5.000", "0u100", "0d100", "0u1000", "0u5.00", "0u.0", "0u5.", "0u5x0",
              "0u<8>256", "0u<0>1", "0u<65>1", "0u<64>18446744073709551615", "0u<64>18446744073709551616", "0u<08>5",
              "18446744073709551615", "18446744073709551616", "99999999999999999999999", "0x", "0b", "0x<12>1f", "0x<8>1ff",
              "0x<16>1f", "0b<2>101", "0b<3>101", "0b<0>", "0b<99999999999999999999>1", "0x<99999999999999999999>1", "0xg", "0b2",
@@ -234,6 +235,9 @@ def run(res, a):
             viol.append(("fixedpoint", "fixed point literal %r is rejected: %s" % (lit, o["err"]), lit))
         elif o.get("bin", "").zfill(sb)[-sb:] != want or (o.get("bits") not in (sb, None)):
             viol.append(("fixedpoint", "fixed point literal %r (= %d / 2^%d) imports as %s bits %s, expected %s" % (lit, k, fb, o.get("bits"), o.get("bin"), want), lit))
+        elif o.get("reerr") or (o.get("retype"), o.get("rebits"), o.get("re")) != (o.get("type"), o.get("bits"), o.get("bin", "")):
+            viol.append(("roundtrip", "import(export(%r)) = %s/%s/%s, expected %s/%s/%s (exported text %r)" % (
+                lit, o.get("retype"), o.get("rebits"), o.get("re") or o.get("reerr"), o.get("type"), o.get("bits"), o.get("bin"), o.get("str")), lit))
     # linear quantizer literals (range 1 loaded from corpus/lqrange1.txt: largest magnitude 8, so the step of an s-bit word is
     # 8 / 2^(s-1) and every k * step is exact): 0lq<s.1>v denotes the s-bit two's complement pattern of k, and prints back as itself
     lq = []
@@ -241,8 +245,26 @@ def run(res, a):
         for _ in range(4 if a.tier == "quick" else 40):
             k = rnd.randrange(-(1 << (sb - 1)) + 1, 1 << (sb - 1))
             lq.append((sb, k, "0lq<%d.1>%s" % (sb, repr(k * 8 / (1 << (sb - 1))))))
+    # the ends of the range: the largest magnitude itself (one band beyond the last pattern) and its neighbours.  Such a literal may be
+    # rejected; when it is accepted the number must print back as the value that was written
+    edge = []
+    for sb in (5, 8, 12):
+        top = 1 << (sb - 1)
+        for k in (top, -top, top + 1, -top - 1, top - 1, -top + 1):
+            edge.append((sb, k, "0lq<%d.1>%s" % (sb, repr(k * 8 / top))))
     lout = C.jsonl(C.sh([C.BMH, "c08", "-types", DYN_TYPES, "-ranges", "1," + os.path.join(C.VERIF, "corpus/lqrange1.txt")],
-                        input="".join(json.dumps({"op": "import", "s": t[2], "n": t[0]}) + "\n" for t in lq), timeout=600).stdout)
+                        input="".join(json.dumps({"op": "import", "s": t[2], "n": t[0]}) + "\n" for t in lq + edge), timeout=600).stdout)
+    for (sb, k, lit), o in zip(edge, lout[len(lq):]):
+        res.count_case({"s": lit}, nontrivial=True)
+        if o.get("err"):
+            continue
+        shown = (o.get("str") or "").split(">")[-1]
+        try:
+            ok = abs(float(shown) - k * 8 / (1 << (sb - 1))) < 4 / (1 << (sb - 1))
+        except ValueError:
+            ok = False
+        if not ok:
+            viol.append(("quantizer", "linear quantizer literal %r (range maximum 8) is accepted as bits %s and prints back as %r" % (lit, o.get("bin"), o.get("str")), lit))
     for (sb, k, lit), o in zip(lq, lout):
         res.count_case({"s": lit}, nontrivial=True)
         want = format(k % (1 << sb), "0%db" % sb)
